@@ -24,6 +24,8 @@ var c19Xfs = []Xf{
 	{Scale: 1.0 / 1024, Tx: 0, Ty: 0},       // 2^-10
 	{Scale: 0.5, Tx: 1048570, Ty: -1048570}, // near +-2^20
 	{Scale: 0.25, Tx: -0.75, Ty: 0.25},      // dyadic offset across 0
+	{Scale: 1.0 / (1 << 30)},                // tiny: products of differences around 2^-56, where an absolute epsilon would bite
+	{Scale: 1.0 / (1 << 45), Tx: 0, Ty: 0},  // 2^-45
 }
 
 func segG(a, b geometry.Point) *rt.G {
